@@ -217,11 +217,13 @@ def strip_docs(sx):
     return re.sub(r"\d+:\d+-\d+:\d+", "_", sx)
 
 
-def doc_location_defects(fsx, text):
+def doc_location_defects(fsx, text, own_lines=True):
     """every location inside a doc comment lies within that comment's lines: the comment's own extent runs over `///` lines only and starts at the
     slashes, everything inside it lies within that extent, a tag's extent starts at its '@word', a link's at '@link'"""
     out = []
     lines_ = text.split("\n")
+    # own_lines: every doc comment line holds nothing but the comment (C16's programs); otherwise a comment may follow other tokens on its line
+    docline = (lambda l: l.lstrip(" \t\u3000\xa0\u2003").startswith("///")) if own_lines else (lambda l: "///" in l)
 
     def span(x):
         a, b = x.split("-")
@@ -241,15 +243,18 @@ def doc_location_defects(fsx, text):
                 out.append("comment extent %s outside the file" % x[1])
                 return
             for r in range(d0[0], d1[0] + 1):
-                if not lines_[r - 1].lstrip(" \t\u3000\xa0\u2003").startswith("///"):
+                if own_lines and not docline(lines_[r - 1]):
                     out.append("comment extent %s covers line %d, which is not a doc comment line: %r" % (x[1], r, lines_[r - 1][:60]))
+            if not docline(lines_[d0[0] - 1]) or not docline(lines_[d1[0] - 1]):
+                out.append("comment extent %s starts or ends on a line without a doc comment" % x[1])
+                return
             if d0[1] - 1 < lines_[d0[0] - 1].index("///"):
                 out.append("comment extent %s starts before the slashes of its line" % x[1])
             if d1[1] > len(lines_[d1[0] - 1].rstrip("\r")) + 1:
                 out.append("comment extent %s ends beyond its line" % x[1])
 
             # the comment's lines as written: the run of doc comment lines around the recorded extent
-            isdoc = lambda r: 1 <= r <= len(lines_) and lines_[r - 1].lstrip(" \t\u3000\xa0\u2003").startswith("///")
+            isdoc = lambda r: 1 <= r <= len(lines_) and docline(lines_[r - 1])
             lo, hi = d0[0], d1[0]
             while isdoc(lo - 1):
                 lo -= 1
@@ -265,7 +270,7 @@ def doc_location_defects(fsx, text):
                             s0, s1 = span(z)
                         except ValueError:
                             continue
-                        if not (lo <= s0[0] <= s1[0] <= hi) or s0 > s1 or s0[1] - 1 < lines_[s0[0] - 1].index("///") or s1[1] > len(lines_[s1[0] - 1].rstrip("\r")) + 1:
+                        if not (lo <= s0[0] <= s1[0] <= hi) or s0 > s1 or not docline(lines_[s0[0] - 1]) or not docline(lines_[s1[0] - 1]) or s0[1] - 1 < lines_[s0[0] - 1].index("///") or s1[1] > len(lines_[s1[0] - 1].rstrip("\r")) + 1:
                             out.append("%s part %s lies outside the lines of its comment %s" % (y[0], z, x[1]))
                         elif y[0] in ("p", "r", "s", "l"):
                             want = {"p": "@param", "r": "@returns", "s": "@see", "l": "@link"}[y[0]]
